@@ -276,6 +276,9 @@ def run(m, chk):
     chk.not_decided = ["exactness order of the computed rules for every n (Linalg.invert)", "Integrate.scalar equals the closed form", "polyline length"]
     chk.assume("numpy.polynomial.legendre.leggauss is deterministic")
     tabs, acc = pure_memo(r, chk)
+    from .extra import memo_key
+
+    memo_key(r, chk)
     pairing(r, chk, ["calculus.Integrate.scalar", "calculus.Integrate.density", "calculus.Integrate.function", "heavy.LeastSquare.func2func"], floor=20)
     seeds(r, chk, tabs)
     for q, params in (("calculus.Integrate.scalar", ["curve"]), ("calculus.Integrate.density", ["curve"]), ("calculus.Integrate.lenght", ["curve"]), ("calculus.Integrate.function", ["knotvector"])):
